@@ -195,6 +195,18 @@ func runC20(c *Ctx, r *Report) {
 				}
 			}
 		}
+		// or the flag is the comparison itself: `valid: child == endMarker` with the child read in this iteration
+		if bin, ok := st.Val.(*ssa.BinOp); ok && bin.Op == token.EQL {
+			other := bin.X
+			if isEndMarkerLoad(bin.X) {
+				other = bin.Y
+			}
+			if (isEndMarkerLoad(bin.X) || isEndMarkerLoad(bin.Y)) && !isEndMarkerLoad(other) {
+				if oi, ok := other.(ssa.Instruction); ok && (oi.Block() == body || body.Dominates(oi.Block())) {
+					okFlag = true
+				}
+			}
+		}
 		r.Check(okFlag, "C20.R2", fname, "valid flag of a node created in Insert", c.Pos(st.Pos()), why)
 	})
 	if nNew == 0 {
